@@ -106,6 +106,17 @@ def run_case(case):
                 fields.append(np.array([[float(x) for x in row] for row in coefF]))
                 labels.append(f"component {c} monomial {expo[m]}")
                 exact.append(ex)
+        if time:
+            # stiff-in-time fields: 1e10 * t^2 added to every component.  The spatial operators must return exactly the
+            # same values (t is held fixed); differentiating in t and cancelling afterwards leaves rounding residue
+            it2 = expo.index(tuple([2] + [0] * (nvar - 1)))
+            nb = len(fields)
+            for k in range(0, nb, max(1, nb // 6)):
+                stiff = fields[k].copy()
+                stiff[:, it2] += 1e10
+                fields.append(stiff)
+                labels.append(labels[k] + " + 1e10 t^2")
+                exact.append(exact[k])
     fields = jnp.asarray(np.stack(fields))
     exact = np.stack(exact)  # (F, P[, n_out])
 
